@@ -15,6 +15,7 @@
 
 #include <algorithm>
 #include <atomic>
+#include <numeric>
 #include <optional>
 #include <stdexcept>
 
@@ -118,7 +119,16 @@ private:
   };
 
   // TODO - make this configurable via policy.
-  static constexpr unsigned step_size = 11;
+  // Consecutive tickets are spread over the node by stepping through it with a stride; the mapping
+  // ticket -> entry (ticket % entries_per_node) is only injective if the stride is coprime to entries_per_node.
+  static constexpr unsigned calc_step_size() {
+    unsigned step = 11;
+    while (std::gcd(step, entries_per_node) != 1) {
+      step += 2;
+    }
+    return step;
+  }
+  static constexpr unsigned step_size = calc_step_size();
   static constexpr unsigned max_idx = step_size * entries_per_node;
 
   struct node : reclaimer::template enable_concurrent_ptr<node> {
